@@ -1,4 +1,4 @@
-(* The method bodies of the observers of merge, zip and combine_latest, as translated from /repo/src on this run
+(* The method bodies of the observers of the eight two-input operators, as translated from /repo/src on this run
    (Gen/Bodies.v: impl blocks inside the macros included) and given meaning by Model/RustSem.v, do exactly what the
    machines of Model/Ops2.v do: for every shared state, either input, every notification. *)
 From RxModel Require Import BodyAbs2.
@@ -27,9 +27,28 @@ Proof.
   destruct sd, e; cbn [abs2 src2 snd]; destruct al, done, ya, yb; tie.
 Qed.
 
-Theorem step2_all o : tied2 o = true -> step2_agrees bodies o.
+Lemma step2_wlf : step2_agrees bodies OWithLatestFrom.
+Proof. intros s sd e. destruct s as [al xa xb ya yb done sk]. destruct sd, e; cbn [abs2 src2 snd]; destruct al, yb; tie. Qed.
+
+Lemma step2_take_until : step2_agrees bodies OTakeUntil.
+Proof. intros s sd e. destruct s as [al xa xb ya yb done sk]. destruct sd, e; cbn [abs2 src2 snd]; destruct al; tie. Qed.
+
+Lemma step2_skip_until : step2_agrees bodies OSkipUntil.
+Proof. intros s sd e. destruct s as [al xa xb ya yb done sk]. destruct sd, e; cbn [abs2 src2 snd]; destruct al, sk; tie. Qed.
+
+Lemma step2_sample : step2_agrees bodies OSample.
+Proof. intros s sd e. destruct s as [al xa xb ya yb done sk]. destruct sd, e; cbn [abs2 src2 snd]; destruct al, ya; tie. Qed.
+
+Lemma step2_buffer : step2_agrees bodies OBuffer.
 Proof.
-  destruct o; intros H; try discriminate H; [apply step2_merge | apply step2_zip | apply step2_combine].
+  intros s sd e. destruct s as [al xa xb ya yb done sk].
+  destruct sd, e; cbn [abs2 src2 snd]; destruct al, xa; ev_lists; fold_arith; reflexivity.
+Qed.
+
+Theorem step2_all o : step2_agrees bodies o.
+Proof.
+  destruct o; [apply step2_merge | apply step2_zip | apply step2_combine | apply step2_wlf | apply step2_take_until
+              | apply step2_skip_until | apply step2_sample | apply step2_buffer].
 Qed.
 
 (* whole timelines: the shared content after any merged sequence of calls on the two observers, and everything sent on *)
@@ -55,16 +74,15 @@ Fixpoint src_run2 (o : op2) (s : st2) (live_a live_b : bool) (tl : timeline) : o
       else src_run2 o s live_a live_b r
   end.
 
-Theorem src_run2_agrees o : tied2 o = true ->
+Theorem src_run2_agrees o :
   forall tl s la lb, src_run2 o s la lb tl = Some (run2 o s la lb tl).
 Proof.
-  intros Ht. induction tl as [|[sd e] r IH]; intros s la lb; [reflexivity|].
+  induction tl as [|[sd e] r IH]; intros s la lb; [reflexivity|].
   cbn [src_run2 run2].
   destruct (match sd with A => la | B => lb end); [|apply IH].
-  pose proof (step2_all o Ht s sd e) as H.
+  pose proof (step2_all o s sd e) as H.
   destruct (abs2 o sd s) as [self|] eqn:Ea.
-  - destruct (abs2 o sd (fst (step2 o s sd e))) as [self'|] eqn:Eb.
-    + rewrite H. destruct (step2 o s sd e) as [s' out]. cbn [fst snd]. rewrite IH. reflexivity.
-    + rewrite Ht in H. discriminate H.
-  - destruct (abs2 o sd (fst (step2 o s sd e))); rewrite Ht in H; discriminate H.
+  - destruct (abs2 o sd (fst (step2 o s sd e))) as [self'|] eqn:Eb; [|contradiction].
+    rewrite H. destruct (step2 o s sd e) as [s' out]. cbn [fst snd]. rewrite IH. reflexivity.
+  - destruct (abs2 o sd (fst (step2 o s sd e))); contradiction.
 Qed.
